@@ -4,6 +4,7 @@ Property theorems only; the model is in `Model/C01.lean` (and `Model/C02.lean` f
 remaining validations of `processSignature`).
 -/
 import NotationModel.Model.C01
+import NotationModel.Generated.SrcVerifier
 set_option linter.unusedSimpArgs false
 set_option linter.unusedVariables false
 
@@ -198,5 +199,77 @@ example : Holds { kind := .oci, skip := false, parseOk := true, integrityOk := t
                   artifact := { sampleDesc with annotations := [] }, hashSupported := true, required := [] }
     { accepted := true, outcomeError := some false, payload := some { sampleDesc with digest := "sha256:bb" },
       returned := none } = false := by decide
+
+/-! ### tie to the translated source -/
+
+namespace Tie
+open NotationModel.Src
+
+theorem lookup_eq (m : List (String × String)) (k v : String) :
+    (!(GoLite.Map.lookup m k).2 || (GoLite.Map.lookup m k).1 != v) = !(List.lookup k m == some v) := by
+  induction m with
+  | nil => simp [GoLite.Map.lookup, GoLite.Map.get?]
+  | cons a m ih =>
+    obtain ⟨k', v'⟩ := a
+    by_cases h : k' = k
+    · subst h; simp [GoLite.Map.lookup, GoLite.Map.get?, List.lookup, bne]
+    · have h' : (k == k') = false := by simp; exact fun e => h e.symm
+      have h'' : (k' == k) = false := by simp [h]
+      simp only [GoLite.Map.lookup, GoLite.Map.get?, List.find?, h'', List.lookup, h'] at ih ⊢
+      exact ih
+
+def mstep (ann : List (String × String)) (_ : Unit) (kv : String × String) : Except Unit Unit :=
+  if List.lookup kv.1 ann == some kv.2 then .ok () else .error ()
+
+theorem foldE_all (ann : List (String × String)) (req : List (String × String)) :
+    (match GoLite.foldE (mstep ann) req () with | .ok _ => true | .error _ => false) =
+      req.all (fun kv => List.lookup kv.1 ann == some kv.2) := by
+  induction req with
+  | nil => simp [GoLite.foldE]
+  | cons a l ih =>
+    simp only [GoLite.foldE, mstep, List.all_cons]
+    by_cases h : (List.lookup a.1 ann == some a.2) = true
+    · simp only [h, if_true, Bool.true_and]; exact ih
+    · simp [h]
+
+theorem verifyUserMetadata_all (p : envelope.Payload) (req : List (String × String)) :
+    (verifier.verifyUserMetadata p req).isNone = req.all (fun kv => List.lookup kv.1 p.TargetArtifact.Annotations == some kv.2) := by
+  unfold verifier.verifyUserMetadata
+  simp only [Id.run]
+  rw [GoLite.forIn_eq_foldE' _ (mstep p.TargetArtifact.Annotations)
+        (fun _ => (none, ())) (fun _ _ => (some (some (GoLite.errT "notation.ErrorUserMetadataVerificationFailed" "")), ())) ?h _ _ () rfl]
+  case h =>
+    intro a t
+    have := lookup_eq p.TargetArtifact.Annotations a.1 a.2
+    by_cases hb : (List.lookup a.1 p.TargetArtifact.Annotations == some a.2) = true
+    · simp [mstep, hb, this]
+    · simp [mstep, hb, this]
+  rw [← foldE_all]
+  cases GoLite.foldE (mstep p.TargetArtifact.Annotations) req () with
+  | ok t => simp only [pure_bind]; rfl
+  | error e => obtain ⟨t, e⟩ := e; simp only [pure_bind]; rfl
+
+
+/-- the model's descriptor of a decoded payload -/
+def descOf (p : envelope.Payload) : Desc :=
+  { mediaType := p.TargetArtifact.MediaType, digest := p.TargetArtifact.Digest, size := p.TargetArtifact.Size,
+    annotations := p.TargetArtifact.Annotations }
+
+/-- TIE (translated source): `verifier.verifyUserMetadata`, translated from verifier/verifier.go on
+every run (`Generated/SrcVerifier.lean`), returns no error exactly when the model's `metadataOk`
+holds - for every payload and every required-metadata map, in every iteration order. -/
+theorem source_verifyUserMetadata_refines_model (p : envelope.Payload) (req : List (String × String)) :
+    (verifier.verifyUserMetadata p req).isNone = metadataOk (descOf p) req := by
+  rw [verifyUserMetadata_all]; rfl
+
+/-- non-vacuity: a required pair whose value differs is refused, a signed superset is accepted -/
+example : (verifier.verifyUserMetadata
+    { TargetArtifact := { MediaType := "m", Digest := "d", Size := 1, Annotations := [("team", "red"), ("stage", "prod")] } }
+    [("team", "blue")]).isSome = true := by decide
+example : (verifier.verifyUserMetadata
+    { TargetArtifact := { MediaType := "m", Digest := "d", Size := 1, Annotations := [("team", "red"), ("stage", "prod")] } }
+    [("stage", "prod")]).isNone = true := by decide
+
+end Tie
 
 end NotationModel.C01
